@@ -400,6 +400,93 @@ fn check_h2f(c: &H2fCase, info: &mut Info) -> Result<(), String> {
     Ok(())
 }
 
+// ---- every message length / every output length -------------------------------------------------------------
+//
+// A staging buffer, a block counter or a length field that is wrong for ONE total size is invisible to sampled
+// lengths. The sweep evaluates, for each of the eight expanders, every message length 0..=N with three tag lengths
+// (N = 16800 quick: past 4096, 8192 and 16384 plus the largest prefix; 70000 thorough: past 65536), and every output length
+// up to the XMD limit (255 blocks) resp. 4200 / 65535 bytes for the XOFs, against the model.
+
+fn sweep_msg(e: Expander, lo: usize, hi: usize, dst: &[u8]) -> Result<(), (String, serde_json::Value)> {
+    let data: Vec<u8> = (0..hi + 1).map(|i| (i as u32).wrapping_mul(2654435761).to_le_bytes()[1]).collect();
+    for n in lo..=hi {
+        let msg = &data[..n];
+        let want = expand_message(e, msg, dst, 40).ok_or_else(|| ("model refused".to_string(), serde_json::Value::Null))?;
+        let case = serde_json::json!({"sweep": "msg", "expander": format!("{:?}", e), "msg_len": n, "dst_len": dst.len()});
+        let got = cr("expand_message", || crate_expand(e, msg, dst, 40)).map_err(|m| (m, case.clone()))?;
+        if got != want {
+            return Err((format!("{:?} expand_message(msg of {} bytes, dst of {} bytes, 40): differs from the RFC (the neighbouring message lengths agree)", e, n, dst.len()), case));
+        }
+    }
+    Ok(())
+}
+
+fn sweep_len(e: Expander, hi: usize) -> Result<(), (String, serde_json::Value)> {
+    for len in 0..=hi {
+        let case = serde_json::json!({"sweep": "len", "expander": format!("{:?}", e), "len": len});
+        let want = expand_message(e, b"sweep", b"QUUX-V01-CS02", len).ok_or_else(|| ("model refused".to_string(), serde_json::Value::Null))?;
+        let got = cr("expand_message", || crate_expand(e, b"sweep", b"QUUX-V01-CS02", len)).map_err(|m| (m, case.clone()))?;
+        if got != want {
+            return Err((format!("{:?} expand_message(len_in_bytes = {}): differs from the RFC", e, len), case));
+        }
+    }
+    Ok(())
+}
+
+fn sweep_jobs(tier: crate::engine::Tier) -> Vec<(Expander, u8, usize, usize, usize)> {
+    // (expander, kind 0 = message sweep / 1 = output-length sweep, lo, hi, tag length)
+    let nmax = if tier == crate::engine::Tier::Quick { 16_800 } else { 70_000 };
+    let mut jobs = vec![];
+    for e in Expander::all_extended().iter() {
+        for dl in [0usize, 43, 255] {
+            let mut lo = 0;
+            while lo <= nmax {
+                let hi = std::cmp::min(lo + 2_099, nmax);
+                jobs.push((*e, 0u8, lo, hi, dl));
+                lo = hi + 1;
+            }
+        }
+        let lmax = match e.xmd_params() {
+            Some((b, _)) => 255 * b,
+            None => if tier == crate::engine::Tier::Quick { 4_200 } else { 65_535 },
+        };
+        jobs.push((*e, 1u8, 0, lmax, 13));
+    }
+    jobs
+}
+
+fn run_sweep(ctx: &crate::engine::Ctx, rec: &mut dyn FnMut(serde_json::Value, Info)) -> Result<(), (String, serde_json::Value)> {
+    let jobs = sweep_jobs(ctx.tier);
+    let res = crate::engine::par_map(ctx.threads, jobs.len(), |i| {
+        let (e, kind, lo, hi, dl) = jobs[i];
+        let dst: Vec<u8> = (0..dl).map(|k| b'A' + (k % 26) as u8).collect();
+        if kind == 0 { sweep_msg(e, lo, hi, &dst) } else { sweep_len(e, hi) }
+    });
+    for (i, r) in res.into_iter().enumerate() {
+        r?;
+        let (e, kind, lo, hi, dl) = jobs[i];
+        let mut info = Info::default();
+        info.nt();
+        info.class(if kind == 0 { format!("{:?}:every-message-length:tag-{}", e, dl) } else { format!("{:?}:every-output-length", e) });
+        rec(serde_json::json!({"expander": format!("{:?}", e), "kind": kind, "lo": lo, "hi": hi, "dst_len": dl}), info);
+    }
+    Ok(())
+}
+
+fn replay_sweep(v: &serde_json::Value) -> Result<(), String> {
+    let name = v["expander"].as_str().unwrap_or("XmdSha256").to_string();
+    let e = *Expander::all_extended().iter().find(|e| format!("{:?}", e) == name).unwrap_or(&Expander::XmdSha256);
+    if v["sweep"].as_str() == Some("len") {
+        let l = v["len"].as_u64().unwrap_or(0) as usize;
+        return sweep_len(e, l).map_err(|(m, _)| m);
+    }
+    let n = v["msg_len"].as_u64().or(v["hi"].as_u64()).unwrap_or(0) as usize;
+    let lo = v["msg_len"].as_u64().or(v["lo"].as_u64()).unwrap_or(0) as usize;
+    let dl = v["dst_len"].as_u64().unwrap_or(0) as usize;
+    let dst: Vec<u8> = (0..dl).map(|k| b'A' + (k % 26) as u8).collect();
+    sweep_msg(e, lo, n, &dst).map_err(|(m, _)| m)
+}
+
 crate::long_sub!(run_long_history, [14]);
 
 pub fn def() -> PropDef {
@@ -410,6 +497,7 @@ pub fn def() -> PropDef {
         subs: vec![
             Box::new(crate::engine::EnumSub { name: "long-history", rule: super::longhist::RULE, run: run_long_history, replay: super::longhist::replay, exhaustive: false }),
             Box::new(crate::engine::EnumSub { name: "two-input-bursts", rule: super::longhist::BURST_RULE, run: run_two_input_bursts, replay: super::longhist::replay_burst, exhaustive: false }),
+            Box::new(crate::engine::EnumSub { name: "length-sweep", rule: "for each of the eight expanders: EVERY message length 0..=16800 (thorough: 0..=70000) with tags of 0, 43 and 255 bytes, and EVERY output length up to 255 blocks (XMD) resp. 4200 / 65535 bytes (XOF), each compared with the model", run: run_sweep, replay: replay_sweep, exhaustive: false }),
             Box::new(Sub { name: "expand-message", rule: "bytes equal the RFC; requests beyond 255 blocks abort", quick: 60_000, thorough: 250_000, strategy: || boxed(expand_case_strategy()), check: check_expand }),
             Box::new(Sub { name: "related-requests", rule: "a request followed back to back by 1..4 related requests (other tag, other message, other length, other expander, same again), each compared with the model; out-of-domain requests (tags beyond 255 bytes) interleaved, outcome ignored", quick: 30_000, thorough: 300_000, strategy: || boxed(expand_seq_strategy()), check: check_expand_seq }),
             Box::new(Sub { name: "block-reduction", rule: "from_okm / from_ro == OS2IP(block) mod p for Fq (64), Fr (48), Fq2 (2 x 64, real first)", quick: 200_000, thorough: 1_000_000, strategy: || boxed(okm_strategy()), check: check_okm }),
